@@ -75,7 +75,7 @@ def _list_case_inner(rng, lsb0):
         a = Array(dt, vals, trailing_bits=trailing or None)
         w = a.itemsize
         model = list(vals)
-        op = rng.choice(['slice', 'setslice', 'setslice_array', 'delslice', 'reverse', 'tolist', 'iter', 'count', 'equals', 'copy', 'extend', 'insert', 'pop', 'len', 'dtype'])
+        op = rng.choice(['slice', 'setslice', 'setslice_array', 'routes', 'extend_routes', 'delslice', 'reverse', 'tolist', 'iter', 'count', 'equals', 'copy', 'extend', 'insert', 'pop', 'len', 'dtype'])
         if lsb0 and op == 'len':
             op = 'tolist'        # (the data-layout clause of 'len' is stated for msb0)
         desc = f'Array({dt!r}, {vals!r}, trailing_bits={trailing!r}).{op}'
@@ -120,6 +120,43 @@ def _list_case_inner(rng, lsb0):
                 ok = exp is not ValueError and a.tolist() == exp and a.trailing_bits.bin == tb
             except ValueError:
                 ok = exp is ValueError and a.tolist() == list(vals)
+        elif op == 'routes':
+            # every construction route holds the same items: the data is the concatenation of the items' encodings whatever the source
+            import io
+            enc = a.data[:len(a.data) - len(a.trailing_bits)] if len(a.trailing_bits) else a.data
+            srcs = [('tuple', lambda: tuple(vals)), ('generator', lambda: (v for v in vals)), ('Array', lambda: Array(dt, vals)), ('Bits', lambda: bitstring.Bits(enc)),
+                    ('BitArray', lambda: BitArray(enc))]
+            if len(enc) % 8 == 0:
+                srcs += [('bytes', lambda: enc.tobytes()), ('bytearray', lambda: bytearray(enc.tobytes())), ('memoryview', lambda: memoryview(enc.tobytes()))]
+            srcs.append(('int', lambda: len(vals)))
+            kind, mk_src = rng.choice(srcs)
+            desc += f' rebuilt from {kind}'
+            b2 = Array(dt, mk_src(), trailing_bits=trailing or None)
+            if kind == 'int':
+                ok = len(b2) == len(vals) and b2.trailing_bits.bin == tb and b2.data.bin.count('1') == tb.count('1') and len(b2.data) == len(vals) * w + len(tb)
+            else:
+                ok = b2.data.bin == a.data.bin and b2.tolist() == a.tolist() and b2.trailing_bits.bin == tb and b2.data is not a.data
+                if ok and len(b2):
+                    # the new Array owns its data: changing it does not change the source
+                    b2[0] = gen()
+                    ok = a.tolist() == model and (kind not in ('BitArray',) or True)
+        elif op == 'extend_routes':
+            more = [gen() for _ in range(rng.randint(0, 3))]
+            kind = rng.choice(['list', 'tuple', 'generator', 'Array'])
+            src = {'list': lambda: list(more), 'tuple': lambda: tuple(more), 'generator': lambda: (v for v in more), 'Array': lambda: Array(dt, more)}[kind]()
+            desc += f'.extend(<{kind} of {more!r}>)'
+            if trailing:
+                try:
+                    a.extend(src)
+                    ok = False
+                except ValueError:
+                    ok = a.tolist() == model and a.trailing_bits.bin == tb
+            else:
+                a.extend(src)
+                ok = a.tolist() == model + more
+                if ok and kind == 'Array' and len(more):
+                    src[0] = gen()                  # the source stays independent of the extended Array
+                    ok = a.tolist() == model + more
         elif op == 'delslice':
             k = slice(rng.choice([None, rng.randint(-9, 9)]), rng.choice([None, rng.randint(-9, 9)]), rng.choice([None, 1, 2, 3, -1, -2]))
             desc += f' del [{k}]'
